@@ -62,6 +62,15 @@ def gen_cases(tier, seed):
         case = gen.rand_search_case(rng)
         if rw.is_empty(case["cls"]):
             continue
+        trng = intuniv.rng_for(seed, "C01/track", i)
+        if trng.random() < 0.06 and not case["cls"].get("right") and not case["cls"].get("flags"):
+            # a union child that also tracks a statistic its parent does not have: several terms
+            # of the child collapse onto one term of the parent
+            case["pack"]["inferral"] = ["track"] + [x for x in case["pack"]["inferral"] if x != "rename"]
+            case["cls"]["stats"] = case["cls"]["stats"][:1]
+            case["pack"]["iterative"] = False
+            if case["pack"]["ver"] in ("libatom", "subatom"):
+                case["pack"]["ver"] = "stat"  # the library's atom strategy refuses classes with statistics
         case["schedule"] = searchlib.rand_schedule(rng, iterative=case["pack"]["iterative"])
         case["N"] = N[tier]
         case["id"] = produced
